@@ -533,7 +533,91 @@ func ruleCtx(c *Ctx) {
 				cleared = true
 			}
 		}
+		// the flag lives in a component struct that is assigned its zero value as a whole
+		if names, _, zeroed := interpFieldStores(in); zeroed {
+			for _, n := range names {
+				if n == "checkCtx" {
+					cleared = true
+				}
+			}
+		}
 	})
+	if !cleared {
+		// the flag is computed in a helper shared with ExecuteContext and handed a constant that selects the plain run:
+		// the value stored, evaluated under the boolean constants passed at the call, is false
+		var look func(fn *ssa.Function, depth int)
+		look = func(fn *ssa.Function, depth int) {
+			live := liveUnderParamBind(fn)
+			var boolOf func(v ssa.Value, d int) (bool, bool)
+			boolOf = func(v ssa.Value, d int) (bool, bool) {
+				if d > 5 {
+					return false, false
+				}
+				switch x := v.(type) {
+				case *ssa.Const:
+					if x.Value != nil && x.Value.Kind() == constant.Bool {
+						return constant.BoolVal(x.Value), true
+					}
+				case *ssa.Parameter:
+					if b, ok := curParamBind[x]; ok {
+						return b, true
+					}
+				case *ssa.UnOp:
+					if x.Op == token.NOT {
+						b, ok := boolOf(x.X, d+1)
+						return !b, ok
+					}
+				case *ssa.Phi:
+					seen, val := false, false
+					for i, e := range x.Edges {
+						pred := x.Block().Preds[i]
+						if (live != nil && !live[pred]) || deadEdgeUnderParamBind(pred, x.Block()) {
+							continue
+						}
+						b, ok := boolOf(e, d+1)
+						if !ok || (seen && b != val) {
+							return false, false
+						}
+						seen, val = true, b
+					}
+					return val, seen
+				}
+				return false, false
+			}
+			for _, b := range fn.Blocks {
+				if live != nil && !live[b] {
+					continue
+				}
+				for _, in := range b.Instrs {
+					if name, val := interpFieldStore(in); name == "checkCtx" {
+						if v, ok := boolOf(val, 0); ok && !v {
+							cleared = true
+						}
+					}
+					if call, ok := in.(ssa.CallInstruction); ok && depth < 2 {
+						if cal := call.Common().StaticCallee(); cal != nil && cal.Pkg == fn.Pkg && len(cal.Blocks) > 0 && cal != fn {
+							saved := curParamBind
+							bind := map[*ssa.Parameter]bool{}
+							for k, v := range saved {
+								bind[k] = v
+							}
+							for ai, a := range call.Common().Args {
+								if k, ok := a.(*ssa.Const); ok && k.Value != nil && k.Value.Kind() == constant.Bool && ai < len(cal.Params) {
+									bind[cal.Params[ai]] = constant.BoolVal(k.Value)
+								}
+							}
+							if len(bind) > len(saved) {
+								curParamBind = bind
+								look(cal, depth+1)
+								curParamBind = saved
+							}
+						}
+					}
+				}
+			}
+		}
+		look(exe, 0)
+	}
 	c.check(cleared && mustStoreBeforeCall(exe, "executeAll")["checkCtx"], "Execute:clears-flag", exe.Pos(), "Execute clears the context flag before executeAll (a context from an earlier ExecuteContext is never consulted)", "Execute does not clear checkCtx: a plain Execute after a cancelled ExecuteContext would fail with the stale context's error")
 }
 
